@@ -255,6 +255,24 @@ def shapes_case(i_seed):
         call = lambda nm: dyn.get(nm)(*args, **kwargs)
         desc = "%s\ncall args %r kwargs %r" % (src, args, kwargs)
         data = None
+        # every failing item on its own (plain conversions; only when no policy / strictness changes what fails)
+        if not any(k in extra for k in ("invalid_items", "max_errors", "no_data_loss")):
+            from utype.utils.transform import type_transform as _tt
+            from utype import Rule as _R
+            from typing import List as _L
+
+            def fails(v, T):
+                try:
+                    _tt(v, T)
+                    return False
+                except Exception:
+                    return True
+            n_fail = int(fails(args[0], int))
+            if len(args) > 1:
+                n_fail += int(args[1] is not None and fails(args[1], _R.parse_annotation(_L[int])))
+                n_fail += sum(fails(v, int) for v in args[2:])
+            n_fail += sum(fails(v, int) for v in kwargs.values())
+            expect_items = n_fail
 
     def run(nm):
         try:
@@ -275,6 +293,8 @@ def shapes_case(i_seed):
         return "value differs: fail-fast %r, collecting %r\n%s" % (ff[1], co[1], desc)
     if ff[0] == "fail" and ff[1][0] not in co[1] and not extra.get("max_errors"):
         return "the item fail-fast stops at (%r) is not among the collected %r\n%s" % (ff[1][0], co[1], desc)
+    if kind == "fn" and co[0] == "fail" and "expect_items" in locals() and len(set(co[1])) < locals()["expect_items"]:
+        return "%d items fail on their own but only %r are collected\n%s" % (locals()["expect_items"], co[1], desc)
     return ("ok", ff[0])
 
 
